@@ -121,6 +121,17 @@ int KSI_Signature_verifyWithPolicy(KSI_Signature *sig, const KSI_DataHash *docHs
 		context.docAggrLevel = rootLevel;
 	} else {
 		context = *verificationContext;
+		/* A document hash and level given as parameters are verified as well - they must not be dropped. */
+		if (docHsh != NULL) {
+			if (context.documentHash != NULL && !KSI_DataHash_equals(context.documentHash, docHsh)) {
+				KSI_pushError(sig->ctx, res = KSI_INVALID_ARGUMENT, "Document hash parameter differs from the document hash in the verification context.");
+				goto cleanup;
+			}
+			context.documentHash = docHsh;
+		}
+		if (context.docAggrLevel < rootLevel) {
+			context.docAggrLevel = rootLevel;
+		}
 	}
 	context.signature = sig;
 
